@@ -34,6 +34,30 @@ func findConds(p *Prog) []condInfoT {
 		}
 		info := fi.Pkg.TypesInfo
 		ast.Inspect(fi.Decl.Body, func(x ast.Node) bool {
+			// the condition variable built in the constructor's literal over a mutex of its own:
+			// &readWriter{cv: sync.NewCond(new(sync.Mutex))} - its locker cv.L is then the lock
+			if kv, isKV := x.(*ast.KeyValueExpr); isKV {
+				if c, ok := ast.Unparen(kv.Value).(*ast.CallExpr); ok && isFunc(info, c, "sync", "NewCond") && len(c.Args) == 1 {
+					if kid, ok := kv.Key.(*ast.Ident); ok {
+						if cfv, ok := info.Uses[kid].(*types.Var); ok && cfv.IsField() {
+							if _, isSel := ast.Unparen(c.Args[0]).(*ast.UnaryExpr); !isSel {
+								owner := ""
+								for _, tn := range p.named {
+									if st, ok := tn.Type().Underlying().(*types.Struct); ok {
+										for i := 0; i < st.NumFields(); i++ {
+											if st.Field(i) == cfv {
+												owner = canonTypeName(stripTypeArgs(shorten(tn.Type().String())))
+											}
+										}
+									}
+								}
+								res = append(res, condInfoT{condField: cfv, lockClass: owner + "." + cfv.Name() + ".L", lockField: cfv.Name() + ".L", pos: p.pos(kv)})
+							}
+						}
+					}
+				}
+				return true
+			}
 			as, ok := x.(*ast.AssignStmt)
 			if !ok || len(as.Lhs) != 1 || len(as.Rhs) != 1 {
 				return true
